@@ -1,32 +1,434 @@
 package main
 
 import (
+	"fmt"
+	"sort"
+	"strings"
 	"time"
 
+	"github.com/anishathalye/porcupine"
+	"github.com/avfs/avfs/idm/memidm"
+	"github.com/avfs/avfs/verifrt"
+
 	"verif/lib/kf"
+	"verif/lib/sched"
 )
 
-// runConcurrent is the concurrent part of C15 (all interleavings of 2-3
-// threads x 1-2 calls under the controlled scheduler, linearizability against
-// Model). STUB: explores nothing and contributes zero counts; to be replaced
-// by the scheduler-based part. Contract:
-//
-//   - report violations through rep (signatures with "part":"conc");
-//   - return counts and samples in a partResult (Name "conc"); main merges
-//     them with the sequential part and writes the evidence once;
-//   - set the verifrt mode it needs itself (main leaves ModeSeq on) and
-//     honour deadline (zero = none);
-//   - a non-nil error is a harness error (exit 2).
-//
-// Reusable from the sequential part: Call, Outcome, execCall (takes any
-// avfs.IdentityMgr), Model (NewModel/Clone/Key/Step: Step(call, observed
-// outcome) returns the mismatches and applies the call, i.e. it is a
-// porcupine-style step function; Mismatch.Structural == false marks
-// attribute-only findings such as isadmin-mismatch), alphabet, errClass.
+// runConcurrent is the concurrent part of C15: every interleaving (at
+// lock-acquisition granularity, preemption bound 2/3, most programs end up
+// fully explored) of 2-3 threads x 1-2 MemIdm calls on colliding names, run on
+// the real MemIdm under the controlled scheduler. The recorded call/return
+// history of each execution is checked for linearizability against Model by
+// brute force over the permutations consistent with real-time order and,
+// independently, by porcupine; both judges must agree.
 func runConcurrent(tier string, rep *kf.Reporter, deadline time.Time) (partResult, error) {
-	return partResult{
-		Name: "conc", Classes: map[string]int{}, Extra: map[string]any{"conc_implemented": false},
-		Exhaustive: false, Bound: "concurrent part not built yet: nothing explored",
-		Summary: "conc: not built yet (0 programs, 0 executions)",
-	}, nil
+	verifrt.SetMode(verifrt.ModeSched)
+	defer verifrt.SetMode(verifrt.ModeSeq)
+
+	res := partResult{Name: "conc", Classes: map[string]int{}, Extra: map[string]any{"conc_implemented": true}, Exhaustive: true}
+
+	adminG, adminU := adminNames()
+
+	setups := [][]Call{
+		nil,
+		{{M: "AddGroup", A: "g1"}, {M: "AddUser", A: "u1", B: "g1"}},
+	}
+
+	tm := []Call{
+		{M: "AddGroup", A: "g1"}, {M: "DelGroup", A: "g1"}, {M: "AddUser", A: "u1", B: "g1"}, {M: "DelUser", A: "u1"},
+		{M: "LookupGroup", A: "g1"}, {M: "LookupUser", A: "u1"}, {M: "LookupGroupId", ID: 1001}, {M: "LookupUserId", ID: 1001},
+		{M: "AddGroup", A: "g2"}, {M: "AddUser", A: "u2", B: "g1"}, {M: "AddUser", A: "u1", B: adminG},
+	}
+
+	type prog struct {
+		setup   []Call
+		threads [][]Call
+	}
+
+	var progs []prog
+
+	for _, su := range setups {
+		for i := range tm {
+			for j := i; j < len(tm); j++ {
+				progs = append(progs, prog{su, [][]Call{{tm[i]}, {tm[j]}}})
+			}
+		}
+	}
+
+	bound := 2
+
+	if tier != "thorough" {
+		// a small 2x2 family around the two-lock AddUser
+		core := []Call{tm[2], tm[1], tm[3], tm[5], tm[4]}
+
+		for a := range core {
+			for b := range core {
+				for c := a; c < len(core); c++ {
+					for d := range core {
+						progs = append(progs, prog{setups[1], [][]Call{{core[a], core[b]}, {core[c], core[d]}}})
+					}
+				}
+			}
+		}
+	}
+
+	if tier == "thorough" {
+		bound = 3
+		core := tm[:8]
+
+		for _, su := range setups {
+			for i := range core {
+				for j := i; j < len(core); j++ {
+					for k := j; k < len(core); k++ {
+						progs = append(progs, prog{su, [][]Call{{core[i]}, {core[j]}, {core[k]}}})
+					}
+				}
+			}
+
+			// 2 threads x 2 calls
+			for a := range core {
+				for b := range core {
+					for c := a; c < len(core); c++ {
+						for d := range core {
+							progs = append(progs, prog{su, [][]Call{{core[a], core[b]}, {core[c], core[d]}}})
+						}
+					}
+				}
+			}
+		}
+	}
+
+	type rec struct {
+		T, I     int
+		C        Call
+		O        Outcome
+		Inv, Ret int
+	}
+
+	execs, multi, minBound, timedOut := 0, 0, 1<<30, 0
+	outcomeSet := map[string]bool{}
+
+	for pi, p := range progs {
+		if !deadline.IsZero() && time.Now().After(deadline) {
+			timedOut++
+
+			continue
+		}
+
+		distinct := map[string]bool{}
+
+		var harnessErr error
+
+		run := func(prefix []int8) sched.Exec {
+			idm := memidm.New()
+			for _, c := range p.setup {
+				execCall(idm, c)
+			}
+
+			recs := make([][]rec, len(p.threads))
+			bodies := make([]func(), len(p.threads))
+
+			for t := range p.threads {
+				t := t
+				recs[t] = make([]rec, len(p.threads[t]))
+
+				for i, c := range p.threads[t] {
+					recs[t][i] = rec{T: t, I: i, C: c, Inv: -1, Ret: -1}
+				}
+
+				bodies[t] = func() {
+					for i, c := range p.threads[t] {
+						verifrt.CallPoint()
+						recs[t][i].Inv = verifrt.Step()
+						recs[t][i].O = execCall(idm, c)
+						recs[t][i].Ret = verifrt.Step()
+					}
+				}
+			}
+
+			r := verifrt.Run(prefix, bodies)
+			pts := verifrt.Points()
+			execs++
+
+			var all []rec
+			for t := range recs {
+				all = append(all, recs[t]...)
+			}
+
+			var key []string
+			for _, x := range all {
+				key = append(key, x.O.String())
+			}
+
+			dump := strings.Join(idm.VerifDump(), ";")
+			k := strings.Join(key, "|") + "#" + dump
+			distinct[k] = true
+
+			describe := func() map[string]any {
+				var calls []map[string]any
+				for _, x := range all {
+					calls = append(calls, map[string]any{"thread": x.T, "call": x.C.String(), "outcome": x.O.String(), "inv": x.Inv, "ret": x.Ret})
+				}
+
+				var su []string
+				for _, c := range p.setup {
+					su = append(su, c.String())
+				}
+
+				return map[string]any{
+					"setup": su, "calls": calls, "choices": sched.Choices(pts), "schedule": sched.FormatSchedule(pts), "final_state": idm.VerifDump(),
+				}
+			}
+
+			tmpl := func() string {
+				var ts []string
+
+				for _, th := range p.threads {
+					var cs []string
+					for _, c := range th {
+						cs = append(cs, c.String())
+					}
+
+					ts = append(ts, strings.Join(cs, ";"))
+				}
+
+				sort.Strings(ts)
+
+				s := strings.Join(ts, " || ")
+				if len(p.setup) > 0 {
+					s = "[g1,u1 exist] " + s
+				}
+
+				return s
+			}
+
+			if r.Deadlock {
+				rep.Report(kf.Sig{"part": "conc", "kind": "deadlock", "prog": tmpl()}, describe())
+
+				return sched.Exec{Res: r, Points: pts}
+			}
+
+			for _, x := range all {
+				if x.O.Err == EPanic || x.O.Err == EDeadlock {
+					rep.Report(kf.Sig{"part": "conc", "kind": strings.ToLower(x.O.Err), "prog": tmpl(), "call": x.C.String()}, describe())
+				}
+			}
+
+			for _, b := range idm.VerifCheck() {
+				rep.Report(kf.Sig{"part": "conc", "kind": "maps-disagree", "prog": tmpl(), "what": stripDigits(b)}, describe())
+			}
+
+			// judge 1: brute force over permutations consistent with real time
+			base := modelAfter(adminG, adminU, p.setup)
+
+			n := len(all)
+			perm := make([]int, 0, n)
+			used := make([]bool, n)
+			bf := false
+
+			var try func(m *Model) bool
+
+			try = func(m *Model) bool {
+				if len(perm) == n {
+					return true
+				}
+
+				for i := 0; i < n; i++ {
+					if used[i] {
+						continue
+					}
+
+					// real-time: every call that returned before all[i] was invoked must already be placed
+					ok := true
+
+					for j := 0; j < n; j++ {
+						if !used[j] && j != i && all[j].Ret >= 0 && all[j].Ret <= all[i].Inv {
+							ok = false
+						}
+
+						// program order
+						if !used[j] && all[j].T == all[i].T && all[j].I < all[i].I {
+							ok = false
+						}
+					}
+
+					if !ok {
+						continue
+					}
+
+					mm := m.Clone()
+					if bad(mm.Step(all[i].C, all[i].O)) {
+						continue
+					}
+
+					used[i] = true
+					perm = append(perm, i)
+
+					if try(mm) {
+						return true
+					}
+
+					perm = perm[:len(perm)-1]
+					used[i] = false
+				}
+
+				return false
+			}
+
+			bf = try(base)
+
+			// judge 2: porcupine
+			var ops []porcupine.Operation
+			for _, x := range all {
+				ops = append(ops, porcupine.Operation{ClientId: x.T, Input: x.C, Call: int64(2 * x.Inv), Output: x.O, Return: int64(2*x.Ret + 1)})
+			}
+
+			pm := porcupine.Model{
+				Init: func() interface{} { return modelAfter(adminG, adminU, p.setup) },
+				Step: func(state, input, output interface{}) (bool, interface{}) {
+					mm := state.(*Model).Clone()
+					if bad(mm.Step(input.(Call), output.(Outcome))) {
+						return false, state
+					}
+
+					return true, mm
+				},
+				Equal: func(a, b interface{}) bool { return a.(*Model).Key() == b.(*Model).Key() },
+			}
+
+			pc := porcupine.CheckOperations(pm, ops)
+
+			if pc != bf {
+				harnessErr = fmt.Errorf("linearizability judges disagree on %s: brute force %v, porcupine %v", tmpl(), bf, pc)
+			}
+
+			if !bf {
+				var rs []string
+				for _, x := range all {
+					rs = append(rs, x.O.Err)
+				}
+
+				rep.Report(kf.Sig{"part": "conc", "kind": "non-linearizable", "prog": tmpl(), "results": strings.Join(rs, ",")}, describe())
+			}
+
+			return sched.Exec{Res: r, Points: pts}
+		}
+
+		st := sched.Explore(run, bound, deadline, 0)
+		if harnessErr != nil {
+			return res, harnessErr
+		}
+
+		if st.BadReplay {
+			return res, fmt.Errorf("replay divergence in program %d", pi)
+		}
+
+		if st.TimedOut {
+			timedOut++
+		}
+
+		b := st.BoundCompleted
+		if st.Unbounded {
+			b = bound
+		}
+
+		if b < minBound {
+			minBound = b
+		}
+
+		if len(distinct) > 1 {
+			multi++
+		}
+
+		for k := range distinct {
+			outcomeSet[fmt.Sprint(pi, ":", k)] = true
+		}
+
+		if len(res.Samples) < 3 {
+			var ts []string
+			for _, th := range p.threads {
+				var cs []string
+				for _, c := range th {
+					cs = append(cs, c.String())
+				}
+
+				ts = append(ts, strings.Join(cs, "; "))
+			}
+
+			res.Samples = append(res.Samples, map[string]any{"program": strings.Join(ts, " || "), "setup_calls": len(p.setup), "schedules": st.Executions, "distinct_outcomes": len(distinct)})
+		}
+	}
+
+	res.States = len(outcomeSet)
+	res.Transitions = execs
+	res.Evaluations = execs
+	res.Classes["conc:schedule-dependent-programs"] = multi
+	res.Classes["conc:programs"] = len(progs)
+
+	if timedOut > 0 {
+		res.Exhaustive = false
+	}
+
+	if minBound == 1<<30 {
+		minBound = -1
+	}
+
+	res.Bound = fmt.Sprintf("%d programs (2-3 threads x 1-2 calls), preemption bound %d (min completed %d), %d timed out", len(progs), bound, minBound, timedOut)
+	res.Extra["conc_programs"] = len(progs)
+	res.Extra["conc_schedules"] = execs
+	res.Extra["conc_schedule_dependent_programs"] = multi
+	res.Extra["conc_min_bound_completed"] = minBound
+	res.Assumptions = []string{
+		"concurrent part: scheduling points before every Lock/RLock of the two MemIdm mutexes and at call boundaries; linearizability judged by brute force and by porcupine v1.3.0 (must agree)",
+	}
+	res.Summary = fmt.Sprintf("conc: programs=%d schedules=%d schedule-dependent=%d min-bound=%d timed-out=%d", len(progs), execs, multi, minBound, timedOut)
+
+	return res, nil
+}
+
+// bad reports whether a model step produced a mismatch that makes the
+// observed outcome impossible in that state. The IsAdmin predicate is an
+// attribute-level finding of the sequential part and does not make an
+// interleaving non-linearizable.
+func bad(ms []Mismatch) bool {
+	for _, m := range ms {
+		if m.Kind != "isadmin-mismatch" {
+			return true
+		}
+	}
+
+	return false
+}
+
+// modelAfter returns the model state after the setup calls (executed on a
+// fresh real MemIdm to obtain the outcomes the model consumes).
+func modelAfter(adminG, adminU string, setup []Call) *Model {
+	m := NewModel(adminG, adminU)
+	idm := memidm.New()
+
+	for _, c := range setup {
+		m.Step(c, execCall(idm, c))
+	}
+
+	return m
+}
+
+func stripDigits(s string) string {
+	var b strings.Builder
+
+	for _, r := range s {
+		if r >= '0' && r <= '9' {
+			b.WriteByte('N')
+		} else {
+			b.WriteRune(r)
+		}
+	}
+
+	return b.String()
+}
+
+func adminNames() (g, u string) {
+	idm := memidm.New()
+
+	return idm.AdminGroup().Name(), idm.AdminUser().Name()
 }
